@@ -206,3 +206,123 @@ pub proof fn lemma_msb_push(v: nat, j: nat, b: bool)
     }
     assert(msb_bits(v2, j + 1) =~= msb_bits(v, j).push(b));
 }
+
+// ---- counting lemmas used by the tree construction ----
+/// number of used symbols among the first n
+pub open spec fn nz(l: Seq<u8>, n: int) -> int
+    decreases n
+{ if n <= 0 { 0 } else { nz(l, n - 1) + (if l[n - 1] != 0 { 1int } else { 0int }) } }
+/// the used symbols are the symbols of lengths 1..=15
+pub proof fn lemma_nz_total(l: Seq<u8>)
+    requires forall|i: int| 0 <= i < l.len() ==> #[trigger] l[i] < 16,
+    ensures nz(l, l.len() as int) == cnt_from(l, 1),
+{
+    lemma_nz_prefix(l, l.len() as int);
+}
+pub open spec fn cnt_from_n(l: Seq<u8>, d: int, n: int) -> int
+    decreases 16 - d
+{ if d >= 16 { 0 } else { cnt(l, d, n) + cnt_from_n(l, d + 1, n) } }
+pub proof fn lemma_nz_prefix(l: Seq<u8>, n: int)
+    requires forall|i: int| 0 <= i < l.len() ==> #[trigger] l[i] < 16, 0 <= n <= l.len(),
+    ensures nz(l, n) == cnt_from_n(l, 1, n), n == l.len() ==> cnt_from_n(l, 1, n) == cnt_from(l, 1),
+    decreases n
+{
+    if n == l.len() { lemma_cnt_from_n_all(l, 1); }
+    if n > 0 {
+        lemma_nz_prefix(l, n - 1);
+        lemma_cnt_from_n_step(l, 1, n);
+    } else {
+        lemma_cnt_from_n_zero(l, 1);
+    }
+}
+pub proof fn lemma_cnt_from_n_all(l: Seq<u8>, d: int)
+    requires 1 <= d <= 16,
+    ensures cnt_from_n(l, d, l.len() as int) == cnt_from(l, d),
+    decreases 16 - d
+{ if d < 16 { lemma_cnt_from_n_all(l, d + 1); } }
+pub proof fn lemma_cnt_from_n_zero(l: Seq<u8>, d: int)
+    requires 1 <= d <= 16,
+    ensures cnt_from_n(l, d, 0) == 0,
+    decreases 16 - d
+{ if d < 16 { lemma_cnt_from_n_zero(l, d + 1); } }
+/// adding symbol n-1 raises exactly the count of its own length
+pub proof fn lemma_cnt_from_n_step(l: Seq<u8>, d: int, n: int)
+    requires 1 <= d <= 16, 0 < n <= l.len(), l[n - 1] < 16,
+    ensures cnt_from_n(l, d, n) == cnt_from_n(l, d, n - 1) + (if l[n - 1] as int >= d { 1int } else { 0int }),
+    decreases 16 - d
+{ if d < 16 { lemma_cnt_from_n_step(l, d + 1, n); } }
+pub proof fn lemma_lstart_zero_above(l: Seq<u8>, m: int, d: int)
+    requires kraft_ok(l), 0 <= m <= 15, forall|i: int| 0 <= i < l.len() ==> #[trigger] l[i] <= m, m <= d <= 15,
+    ensures lstart(l, d) == 0,
+    decreases 16 - d
+{
+    if d < 15 { lemma_lstart_zero_above(l, m, d + 1); lemma_slots_above_max(l, m, d + 1); }
+}
+/// level e > d ends at or before the start of level d
+pub proof fn lemma_level_end(l: Seq<u8>, e: int, d: int)
+    requires kraft_ok(l), 0 <= d < e <= 15,
+    ensures lstart(l, e) + slots(l, e) <= lstart(l, d), 0 <= lstart(l, e), 0 <= slots(l, e),
+    decreases e - d
+{
+    lemma_slots_nonneg(l, e); lemma_lstart_total(l, e);
+    if d < e - 1 { lemma_level_end(l, e, d + 1); lemma_slots_nonneg(l, d + 1); }
+}
+/// the symbol itself is counted after position n
+pub proof fn lemma_cnt_strict(l: Seq<u8>, d: int, n: int)
+    requires 0 <= n < l.len(), l[n] as int == d, d >= 1,
+    ensures 0 <= cnt(l, d, n) < cnt_all(l, d),
+{
+    lemma_cnt_bounds(l, d, n); lemma_cnt_bounds(l, d, n + 1);
+}
+pub proof fn lemma_cnt_strict_lt(l: Seq<u8>, d: int, n: int, j: int)
+    requires 0 <= n < j <= l.len(), l[n] as int == d, d >= 1,
+    ensures cnt(l, d, n) < cnt(l, d, j),
+    decreases j - n
+{
+    if j > n + 1 { lemma_cnt_strict_lt(l, d, n, j - 1); lemma_cnt_mono1(l, d, j); } else { }
+}
+pub proof fn lemma_cnt_mono1(l: Seq<u8>, d: int, j: int)
+    requires 0 < j <= l.len(),
+    ensures cnt(l, d, j - 1) <= cnt(l, d, j),
+{}
+pub proof fn lemma_nz_bound(l: Seq<u8>, n: int)
+    requires 0 <= n <= l.len(),
+    ensures 0 <= nz(l, n) <= n,
+    decreases n
+{ if n > 0 { lemma_nz_bound(l, n - 1); } }
+pub proof fn lemma_lstart_mono(l: Seq<u8>, d: int)
+    requires kraft_ok(l), 0 <= d <= 15,
+    ensures lstart(l, d) <= lstart(l, 0),
+    decreases d
+{
+    if d > 0 { lemma_lstart_mono(l, d - 1); lemma_slots_nonneg(l, d); }
+}
+
+
+/// a tree for an alphabet of at most 65535 symbols has fewer than 2^17 entries
+pub proof fn lemma_tree_len(t: Seq<i32>, l: Seq<u8>)
+    requires tree_for(t, l),
+    ensures t.len() < 0x4000_0000, t.len() >= 2,
+{
+    lemma_nz_total(l); lemma_lstart_total(l, 0); lemma_nz_bound(l, l.len() as int);
+    assert(slots(l, 1) == 2);
+    lemma_lstart_mono(l, 1); lemma_lstart_total(l, 1);
+    assert(lstart(l, 0) == lstart(l, 1) + slots(l, 1));
+}
+
+/// one step of the bit-reversal loop of calc_huffman_codes
+pub proof fn lemma_rev_step(rc: u16, c: u16, orig: nat, j: nat)
+    requires rc as nat == revn(orig, j), c as nat == orig / pow2(j), j <= 14,
+    ensures (((rc << 1) | (c & 1)) as nat) == revn(orig, j + 1), ((c >> 1) as nat) == orig / pow2(j + 1),
+{
+    lemma2_to64();
+    lemma_revn_bound(orig, j);
+    lemma_pow2_le(j, 14);
+    assert(rc < 16384 ==> ((rc << 1) | (c & 1)) == 2 * rc + c % 2) by (bit_vector);
+    assert(c >> 1 == c / 2) by (bit_vector);
+    lemma_pow2_unfold(j + 1);
+    lemma_pow2_pos(j);
+    lemma_div_denominator(orig as int, pow2(j) as int, 2);
+    assert(pow2(j + 1) == pow2(j) * 2);
+    assert(revn(orig, j + 1) == 2 * revn(orig, j) + (orig / pow2(j)) % 2);
+}
